@@ -214,9 +214,11 @@ class Arrow:
     def __getitem__(self, key):
         if isinstance(key, slice):
             if key.step == -1:
-                boxes = [box[::-1] for box in self.boxes[key]]
+                start, stop, _ = key.indices(len(self))
+                forward = self[stop + 1:max(start, stop) + 1]
+                boxes = [box[::-1] for box in forward.boxes[::-1]]
                 return self.upgrade(
-                    Arrow(self.cod, self.dom, boxes, _scan=False))
+                    Arrow(forward.cod, forward.dom, boxes, _scan=False))
             if (key.step or 1) != 1:
                 raise IndexError
             boxes = self.boxes[key]
